@@ -38,7 +38,7 @@ def quota_model(t, cfg, total_units, seats):
 class C04(Check):
     pid = 'C04'
     level = 'model_checking'
-    rule = ('C01 case space (+ weighted W(3,3,3,{1,2,3,5,8}) profiles, + U(3,6) so that ballot counts divisible and not divisible '
+    rule = ('C01 case space (+ weighted W(3,3,3,{2,3,5}) (thorough {1,2,3,5,8}) profiles, + U(3,6) so that ballot counts divisible and not divisible '
             'by seats+1 occur for every seat number); the quota model is recomputed at every in-scope snapshot and compared to the '
             'last stored unit; states = distinct (rule, arithmetic, total, seats, quota) quota-model states, transitions = distinct consecutive quota pairs, '
             'traces_validated = real counts all of whose in-scope snapshots matched the model and whose exclusions/transfers respected clause (b). '
@@ -50,7 +50,7 @@ class C04(Check):
         yield from families.standard(tier)
         D = configs.DEFAULTS
         if tier == 'quick':
-            yield from families.seats_ties(3, spaces.W(3, 3, 3, (1, 2, 3, 5, 8)), seats=(1, 2), ties='id',
+            yield from families.seats_ties(3, spaces.W(3, 3, 3, (2, 3, 5)), seats=(1, 2), ties='id',
                                            cfgs=D + configs.wigm_menu()[::7] + configs.meek_menu()[::7])
         else:
             yield from families.seats_ties(3, spaces.W(3, 3, 3, (1, 2, 3, 5, 8)), seats=(1, 2), ties='id',
